@@ -25,13 +25,16 @@ pub enum Call {
     Close = 3,
     /// WebSocket relay: bytes waiting in direction `side` (0 = client->server) at a relay step
     Relay = 4,
+    /// WebSocket relay: bytes readable from the socket of direction `side` at a relay step (the relay
+    /// may refuse to read them: write-side back-pressure for the compio end of that direction)
+    Intake = 5,
 }
 
-pub const CALL_NAME: [&str; 5] = ["read", "write", "flush", "close", "relay"];
+pub const CALL_NAME: [&str; 6] = ["read", "write", "flush", "close", "relay", "intake"];
 
 impl Call {
     pub fn from_u8(v: u8) -> Call {
-        [Call::Read, Call::Write, Call::Flush, Call::Close, Call::Relay][v as usize]
+        [Call::Read, Call::Write, Call::Flush, Call::Close, Call::Relay, Call::Intake][v as usize]
     }
 }
 
@@ -77,6 +80,7 @@ pub fn devs_for(call: Call) -> &'static [Dev] {
         Call::Read | Call::Write => &[Dev::One, Dev::Half, Dev::PendNext, Dev::PendQuiet],
         Call::Flush | Call::Close => &[Dev::PendNext, Dev::PendQuiet],
         Call::Relay => &[Dev::One, Dev::Half, Dev::Hold],
+        Call::Intake => &[Dev::PendNext, Dev::PendQuiet],
     }
 }
 
@@ -89,7 +93,7 @@ pub struct Point {
 
 impl Point {
     pub fn who(&self) -> &'static str {
-        if self.call == Call::Relay {
+        if matches!(self.call, Call::Relay | Call::Intake) {
             ["c2s", "s2c"][self.side as usize]
         } else {
             SIDE_NAME[self.side as usize]
@@ -161,7 +165,7 @@ pub fn plan_class(p: &Plan, applied: &[bool]) -> String {
 pub struct Decider {
     pub plan: Plan,
     pub applied: Vec<bool>,
-    counters: [[u32; 5]; 2],
+    counters: [[u32; 6]; 2],
     /// (point, transferable amount at that point)
     pub reached: Vec<(Point, u32)>,
     pub calls: u64,
@@ -174,7 +178,7 @@ impl Decider {
         Self {
             plan,
             applied: vec![false; n],
-            counters: [[0; 5]; 2],
+            counters: [[0; 6]; 2],
             reached: Vec::new(),
             calls: 0,
             call_horizon,
